@@ -1608,9 +1608,7 @@ def do_define_meson(regex: T.Pattern[str], line: str, confdata: 'ConfigurationDa
         return '/* #undef %s */\n' % varname
 
     if isinstance(v, str):
-        result = f'#define {varname} {v}'.strip() + '\n'
-        result, _ = do_replacement_meson(regex, result, confdata)
-        return result
+        return f'#define {varname} {v}'.strip() + '\n'
     elif isinstance(v, bool):
         if v:
             return '#define %s\n' % varname
